@@ -1,11 +1,12 @@
 """C04 - incremental re-parse: memo invalidation and parent links (both literally in the statement)."""
-from ..rules import treer, rxr
+from ..rules import treer, rxr, tok
 
 
 def check(ctx, rep):
     treer.tree_6(ctx, rep)
     treer.tree_1(ctx, rep, only=['parso/python/diff.py'])
     # the line arithmetic of the diff parser is derived from end_pos / prefix positions: one notion of line break there
+    tok.tok_4(ctx, rep)      # order of indentation-stack changes and their tokens: the list is shared with the diff parser
     rxr.rx_10(ctx, rep, ['parso/tree.py', 'parso/python/tree.py', 'parso/python/diff.py'])
     rep.note('Not decided: equivalence of the incremental and the fresh tree over edit histories (difflib opcodes, '
              'line arithmetic, copy heuristics are value driven).')
